@@ -688,6 +688,10 @@ pub mod completion {
               continue;
             }
             for (n, interface_sig) in &mod_cx.interfaces {
+              if PStr::MISSING.eq(n) {
+                // The name the parser gives to a class or interface whose name is missing.
+                continue;
+              }
               if interface_sig.private && import_mod_ref.ne(module_reference) {
                 // Private classes of other modules cannot be imported.
                 continue;
